@@ -180,6 +180,30 @@ impl Monitor for C07 {
         if s.history(hd.height).is_some() {
             viol!("history-holds-own-height", "history tree of the state at height {} already holds an entry at that height", hd.height);
         }
+        // (a') the scalar header fields are the state's own scalars (read through the cfg hook), not a function of
+        // them: any difference in the fee pool, fee multiplier or DOSC speed of the state must show in the header
+        {
+            let v = s.verif_view();
+            if hd.network != v.network || hd.height != v.height {
+                viol!("header-scalar-differs-from-state", "header of block {} says network {:?} height {}, the state holds {:?} / {}", hd.height, hd.network, hd.height, v.network, v.height);
+            }
+            if hd.fee_pool != v.fee_pool || hd.fee_multiplier != v.fee_multiplier || hd.dosc_speed != v.dosc_speed {
+                viol!(
+                    "header-scalar-differs-from-state",
+                    "header of block {} records fee pool {} / multiplier {} / DOSC speed {}, the sealed state holds {} / {} / {}",
+                    hd.height,
+                    hd.fee_pool,
+                    hd.fee_multiplier,
+                    hd.dosc_speed,
+                    v.fee_pool,
+                    v.fee_multiplier,
+                    v.dosc_speed
+                );
+            }
+            if v.dosc_speed > 1_000_000_000 {
+                st.class("dosc-speed-above-1e9");
+            }
+        }
         // (b) roots are functions of contents
         let coins = tree_entries(&s.raw_coins_smt());
         let pools = tree_entries(&s.raw_pools_smt());
